@@ -408,6 +408,15 @@ func famHeap(dir string, seed int64, tier string) {
 			}
 		}
 	}
+	// cycles longer than any bounded window of remembered references
+	for _, f := range []string{"ptr", "iface", "anyslice", "mm"} {
+		for _, pc := range [][2]int{{0, 1023}, {0, 1024}, {0, 1025}, {700, 1025}, {0, 1500}, {3, 2200}} {
+			if !thorough && f != "ptr" && pc[1] != 1025 {
+				continue
+			}
+			add(chainGraph(f, pc[0], pc[1]), fmt.Sprintf("cycle %s prefix=%d len=%d", f, pc[0], pc[1]))
+		}
+	}
 	// a DAG with a shared node below many levels of indirection: not a cycle, at any depth
 	for _, d := range []int{1, 997, 998, 999, 1000, 1001, 1500} {
 		g := chainGraph("ptr", d, 0)
@@ -596,6 +605,74 @@ func famHeap(dir string, seed int64, tier string) {
 			}
 		}
 	}
+	// non-byte arrays reached at an indirection depth around the threshold (arrays are values, not references)
+	runMarshal := func(root any) error {
+		return withWatchdog(8*time.Second, &leaked, func() error {
+			count := 0
+			t1 := time.Now()
+			return guard(func() error {
+				s := sb.Marshal(root)
+				for {
+					var t sb.Token
+					if e := s.Next(&t); e != nil {
+						return e
+					}
+					if t.Invalid() {
+						return nil
+					}
+					count++
+					if count > 60000 || (count%1000 == 0 && time.Since(t1) > 4*time.Second) {
+						return errDiverge
+					}
+				}
+			})
+		})
+	}
+	judge := func(err error, cyclic bool, desc string) {
+		rep.Evaluations++
+		rep.count("deep-array")
+		switch {
+		case classOf(err) == "EPanic":
+			rep.violate("C18", "marshal-panic", fmt.Sprintf("Marshal panicked: %v", err), desc)
+		case classOf(err) == "EDiverge":
+			rep.violate("C18", "marshal-diverges", "more than 60000 tokens (or 4 s) without an end: marshalling does not terminate", desc)
+		case cyclic && classOf(err) != "ECyclic":
+			rep.violate("C18", "cycle-not-reported", fmt.Sprintf("a cyclic value marshalled without a cyclic-pointer error (%v)", err), desc)
+		case !cyclic && err != nil:
+			rep.violate("C18", "acyclic-rejected", fmt.Sprintf("an acyclic value failed to marshal: %v", err), desc)
+		}
+	}
+	for _, n := range []int{1, 500, 998, 999, 1000, 1001, 1002, 1500} {
+		for _, cyclic := range []bool{false, true} {
+			if leaked >= 6 && cyclic {
+				continue
+			}
+			nodes := make([]*LNode, n)
+			for i := range nodes {
+				nodes[i] = &LNode{Arr: [3]int{i, 1, 2}, A2: [1]any{i}}
+			}
+			for i := 0; i+1 < n; i++ {
+				nodes[i].Next = nodes[i+1]
+			}
+			if cyclic {
+				nodes[n-1].Next = nodes[0]
+			}
+			judge(runMarshal(nodes[0]), cyclic, fmt.Sprintf("list of %d nodes carrying array fields cyclic=%v", n, cyclic))
+		}
+		// [2]int behind n/2 levels of any(&x)
+		var x any = [2]int{4, 5}
+		for i := 0; i < n/2; i++ {
+			y := x
+			x = &y
+		}
+		judge(runMarshal(x), false, fmt.Sprintf("[2]int behind %d levels of any(&x)", n/2))
+	}
 	w.flush()
 	rep.write(dir)
+}
+
+type LNode struct {
+	Next *LNode
+	Arr  [3]int
+	A2   [1]any
 }
